@@ -17,6 +17,7 @@ import (
 	"crypto/ed25519"
 	"crypto/sha256"
 	"fmt"
+	"jsim/tape"
 	"os"
 	"runtime/debug"
 	"sort"
@@ -619,6 +620,52 @@ func maskString(p []bool) string {
 
 // ---- mode FN: publisher -> every subset -> reconstruction --------------------------------------
 
+// reconstructCorrupted repeats a successful reconstruction with ONE present unit's shard bytes
+// altered: the function may fail, or still return the original message (the altered shard was not
+// needed and not committed to), but it must never hand back a different message - the signed root
+// covers every shard.
+func (w *world) reconstructCorrupted(m *message, present []bool, local int, cf *tape.Tape) {
+	total := m.d + m.p
+	in := make([]*pp.Unit, total)
+	var idx []int
+	for i := 0; i < total; i++ {
+		if present[i] {
+			u := cloneUnit(&m.units[i])
+			in[i] = &u
+			if len(u.ShardData) == 1 && len(u.ShardData[0]) > 0 {
+				idx = append(idx, i)
+			}
+		}
+	}
+	if len(idx) == 0 {
+		return
+	}
+	j := idx[cf.Draw("unit", len(idx))]
+	sh := in[j].ShardData[0]
+	pos := cf.Draw("byte", len(sh))
+	sh[pos] ^= byte(1 + cf.Draw("bits", 255))
+	var (
+		got []byte
+		err error
+	)
+	w.c.Evals++
+	w.c.Fault("corrupt_shard_at_reconstruction")
+	if pc := guard(func() { got, _, _, err = pp.ConstructMessageFromUnits(in, pp.ShardIndex(local), m.d, m.p) }); pc != nil {
+		w.panicked(pc, "corrupted_shard")
+		return
+	}
+	if err == nil && !bytes.Equal(got, m.msg) {
+		kind := "parity"
+		if j < m.d {
+			kind = "data"
+		}
+		w.report("wrong_message", "construct/corrupted_"+kind+"_shard", "with byte %d of shard %d altered a DIFFERENT message was returned without error: %d bytes %s, original %d bytes %s (len=%d d=%d p=%d present=%s local=%d)", pos, j, len(got), short(got), len(m.msg), short(m.msg), len(m.msg), m.d, m.p, maskString(present), local)
+	}
+	if err != nil {
+		w.c.Probe("corrupted_shard_reconstruction_refused")
+	}
+}
+
 func (w *world) runFN() {
 	c, t := w.c, w.c.T
 	keep0 := t.Draw("shard0_policy", 2) == 0 // 0: every subset contains shard 0
@@ -651,6 +698,7 @@ func (w *world) runFN() {
 	w.checkPublished(m)
 
 	present := make([]bool, total)
+	cf := t.Fork("corrupt.at.reconstruction")
 	evalMask := func(mask uint64, local int) {
 		cnt := 0
 		for i := 0; i < total; i++ {
@@ -663,7 +711,9 @@ func (w *world) runFN() {
 			return
 		}
 		before := len(w.viols)
-		w.reconstruct(m, present, local, "construct")
+		if w.reconstruct(m, present, local, "construct") && cf.Draw("try", 3) == 0 {
+			w.reconstructCorrupted(m, present, local, cf)
+		}
 		if cnt >= d {
 			if cnt == d {
 				c.Probe("subset_exactly_threshold")
